@@ -97,6 +97,7 @@ class Env(object):
         self.defuncts = 0
         self.registry = {}      # id(response object) -> canonical
         self.nha_snap = {}
+        self.conns = []         # every fake connection ever created (a reconnect makes a new one)
         self.fire_in_borrow = False
         self.keep = []          # keep response objects alive (ids stay unique)
 
@@ -123,6 +124,9 @@ class FakeConnection(object):
         n = env.sc.get('nids', 4)
         self.request_ids = collections.deque(range(n))
         self.highest_request_id = n - 1
+        self.in_flight = 0          # HostConnection accounting: +1 per borrow, -1 per return_connection(this connection)
+        self.serial = len(env.conns)
+        env.conns.append(self)
         self.orphaned_request_ids = set()
         self.orphaned_threshold = 10 ** 9
         self.is_defunct = False
@@ -146,7 +150,8 @@ class FakeConnection(object):
             raise d['C'].ConnectionBusy('Connection is overloaded')
         if st == PSENDFAIL:
             raise d['C'].ConnectionShutdown('send-fail')
-        rec = {'host': self.hidx, 'cb': cb, 'msg': msg, 'conn': self, 'rid': request_id}
+        rec = {'host': self.hidx, 'cb': cb, 'msg': msg, 'conn': self, 'rid': request_id,
+               'page': getattr(getattr(self.env, 'future', None), '_page_no', 0)}     # which page fetch this execution belongs to
         if isinstance(msg, d['P'].PrepareMessage):
             rec.update(kind=1, qs=msg.query, ks=msg.keyspace)
         else:
@@ -190,10 +195,13 @@ class FakePool(object):
         if st == PFAIL:
             raise RuntimeError('borrow-fail')
         with self.conn.lock:
+            self.conn.in_flight += 1
             return self.conn, self.conn.get_request_id()
 
     def return_connection(self, conn, stream_was_orphaned=False):
         self.env.returns += 1
+        with conn.lock:
+            conn.in_flight -= 1
 
 
 class FakeMetrics(object):
@@ -548,6 +556,7 @@ class Run(object):
         self.future = self.session._create_response_future(query, params, False, None, None, execution_profile=profile,
                                                            host=target)
         self.future._errors = RecordingDict(env, self.hosts)
+        env.future = self.future
         self.n_log = 0
 
     def _ps(self, i, q, k):
@@ -571,6 +580,16 @@ class Run(object):
 
     def completed(self):
         return self.future._event.is_set()
+
+    def accounting(self):
+        """[(connection serial, host, in_flight, unanswered requests on it)] where the two numbers differ: every borrow must be
+        matched by exactly one return_connection on the SAME connection once its request is answered / failed"""
+        bad = []
+        for c in self.env.conns:
+            open_here = sum(1 for r in self.env.sent if r['conn'] is c and (not r.get('answered') or r.get('task') is not None))
+            if c.in_flight != open_here:
+                bad.append((c.serial, c.hidx, c.in_flight, open_here))
+        return bad
 
     # ------------------------------------------------------------------ one op
     def step(self, op):
@@ -601,12 +620,19 @@ class Run(object):
                 env.sent[i]['answered'] = True
                 rec = env.sent[i]
                 rec['conn']._requests.pop(rec['rid'], None)
+                nq = len(env.queue)
                 rec['cb'](make_response(env, op[2]))
+                if rec['kind'] == 1 and len(env.queue) == nq + 1:
+                    rec['task'] = env.queue[-1]      # the PREPARE's connection is handed back by _execute_after_prepare (this task)
                 with rec['conn'].lock:                      # process_msg: the stream id becomes reusable (FIFO)
                     rec['conn'].request_ids.append(rec['rid'])
         elif k == 'run':
             if op[1] < len(env.queue):
-                fn, args, kwargs = env.queue.pop(op[1])
+                task = env.queue.pop(op[1])
+                fn, args, kwargs = task
+                for rec in env.sent:
+                    if rec.get('task') is task:
+                        rec['task'] = None
                 fn(*args, **kwargs)
         elif k == 'spec':
             for t in env.timers:
